@@ -247,6 +247,12 @@ Phase 6 (C08) — spec option `pointer_arrays`: raw pointers to scalars as the a
 * a translation unit may consist of headers only plus `extra` lines (`template class nanoflann::KNNResultSet<double, size_t, size_t>;`: the
   members of a class template have bodies in clang's AST only when instantiated); `filter` selects the dumped namespace.
 
+Phase 7 (C11 ellipse) — with `dyn_sizes`
+* a FIXED-size Eigen local initialised from a dynamic-size value (`Eigen::Vector2d s = svd.singularValues();`, `Eigen::Matrix2d U =
+  svd.matrixU();` with `svd` an `oracle_classes` object) is read at the local's indices (`s_0 := o_singularValues 0`, `U_1_0 := o_matrixU 1 0`);
+  as for the block assignment of phase 5 the sizes of the value are NOT compared with the local's (Eigen asserts them in debug builds
+  only): a trusted reading. Before, such a local had no coefficients and its first read made the function untranslatable.
+
 Anything else (function-local `static`, writes to globals, unknown calls, unsupported statements) makes the function
 UNTRANSLATABLE: the generated file then holds a comment with the reason and no definition of that name, so that the
 bridge theorem about it no longer compiles.
@@ -5273,6 +5279,11 @@ class Translator:
         pre = []
         if classify(ct) == 'agg':
             obj = self.eval_obj(init[0], env, pre)
+            if self.spec.get('dyn_sizes') and isinstance(obj, dict) and 'm' in obj and 'rows' in obj and dyn_info(ct) is None \
+                    and not DYNX_RE.search(ct) and self.is_eigen_type(ct):
+                # phase 7 (C11): `Eigen::Matrix2d U = svd.matrixU();` — a FIXED-size local initialised from a dynamic-size value is read
+                # at the local's indices (sizes not compared, as for `dynx_to_fixed` of phase 5: Eigen asserts them in debug builds only)
+                obj = self.dynx_to_fixed(obj, self.eigen_keys(ct)[0])
             return self.wrap(pre, self.bind_obj(env, vid, [], obj, k))
         if v.get('constexpr') and classify(ct) in ('int', 'uint'):
             # phase 3: `constexpr int DIM = Traits<T>::DIM;` whose initialiser cannot be followed (a static member of a class the dump does
